@@ -27,6 +27,24 @@ def reply (toks : List String) : String :=
     match Wire.strOfHex h with
     | some t => let c := Language.fromTag t; s!"{c} {Wire.hexOfStr (Language.tag c)}"
     | none => "bad-request"
+  | ["validate", cat, h] =>
+    match Category.ofVariantName cat, Wire.strOfHex h with
+    | some c, some s => if c.validate s then "1" else "0"
+    | _, _ => "bad-request"
+  | ["is_valid", col, v] =>
+    match WireExpr.parseColumn col, WireExpr.parseValue v with
+    | some c, some x => if c.isValidValue x then "1" else "0"
+    | _, _ => "bad-request"
+  | ["guid_value", hex] =>
+    match WireExpr.guidValue hex.toList with
+    | some g => s!"{WireExpr.valueTok (.str g)} {if Category.validate .guid g then 1 else 0}"
+    | none => "bad-request"
+  | ["langs_value", codes] =>
+    match (WireExpr.splitOnChar ',' codes).mapM String.toNat? with
+    | some cs =>
+      let v := WireExpr.langsValue cs
+      s!"{WireExpr.valueTok (.str v)} {if Category.validate .language v then 1 else 0}"
+    | none => "bad-request"
   | ["cp_id", name] =>
     match Gen.cpVariants.idxOf? name with
     | some i => match CodePage.id i with
